@@ -670,8 +670,15 @@ func (x *Exec) execConvert(fr *Frame, n *Node, st *State, in *ssa.Convert) {
 		x.setVal(fr, n, in, Term{S: mkIte(app(">=", v.S, "0.0"), app("to_int", v.S), app("-", app("to_int", app("-", v.S)))), Sort: SInt})
 	default:
 		name := "uf_conv_" + mangle(typeKeyShort(in.X.Type())) + "_to_" + mangle(typeKeyShort(in.Type()))
+		if from == SSlice && to == SStr {
+			// string(bytes): a function of the bytes' contents at this moment
+			if sl, ok := types.Unalias(in.X.Type()).Underlying().(*types.Slice); ok {
+				fr.vals[in] = x.bytesToString(n, st, v, sl.Elem())
+				return
+			}
+		}
 		if from == SSlice || to == SSlice {
-			// []byte <-> string conversions depend on heap contents: unconstrained
+			// string -> []byte and other conversions: unconstrained
 			fr.vals[in] = x.fresh("conv", in.Type())
 			if to == SSlice {
 				n.assume(wfSlice(fr.vals[in].S))
@@ -932,4 +939,19 @@ func reaches(a, b *ssa.BasicBlock) bool {
 func fnDisplayName(fn *ssa.Function) string {
 	s := fn.String()
 	return strings.TrimPrefix(s, "github.com/cloudflare/pint/")
+}
+
+// bytesToString: string(b) as an uninterpreted function of the array contents, offset and length.
+func (x *Exec) bytesToString(n *Node, st *State, v Term, elem types.Type) Term {
+	h := x.heapElem(elem)
+	es := x.ss.sortOf(elem)
+	f := "uf_b2s_" + mangle(es)
+	x.vc.declFun(f, []string{"(Array Int " + es + ")", SInt, SInt}, SStr)
+	t := app(f, app("select", x.get(st, h).S, app("s.arr", v.S)), app("s.off", v.S), app("s.len", v.S))
+	x.vc.axiom(mkEq(app("u_slen", t), app("s.len", v.S)))
+	r := Term{S: t, Sort: SStr, T: types.Typ[types.String]}
+	if n != nil {
+		return x.nameTerm(n, "b2s", r)
+	}
+	return r
 }
